@@ -322,6 +322,10 @@ func cmdCheck(args []string) {
 			}
 		}
 	}
+	if level == "proof" && discharged != len(obls) {
+		level = "other"
+		explanation = strings.TrimSpace(explanation + fmt.Sprintf(" %d of %d obligations are not discharged (listed known findings: genuine defects that are recorded, not repaired); every other obligation is proved.", len(obls)-discharged, len(obls)))
+	}
 	ev := map[string]interface{}{
 		"property_id": *prop, "tier": *tier, "seed": seed, "level": level,
 		"coverage": map[string]interface{}{
